@@ -15,7 +15,9 @@ RULE = ("cases = (function registry, integer bounds, query text): random registr
         "names starting with true/false/null), environments with default / +-10 / +-2^31 / asymmetric bounds, "
         "queries well-typed by construction and the same queries with one injected fault (arity, argument class, "
         "Value call as test, non-Value call compared, non-singular query compared, unknown function, integer at "
-        "or one past a bound) at a random position; oracle = reference judgement: compiles <=> grammatical, "
+        "or one past a bound, the integer 0, integers with up to 5000 digits) at a random position; bounds include ranges "
+        "that exclude 0; a third of the registries use function objects that are falsy; a quarter of the environments "
+        "first live with another registry, compile a query with it and are then switched (rebinding or in place); oracle = reference judgement: compiles <=> grammatical, "
         "well-typed and in range, otherwise a JSONPathError and no registered function is invoked; non-trivial = "
         "the fault / boundary integer / call sits below the top level of a filter (under !, &&, ||, parentheses, "
         "inside an argument or a nested filter); distinct by (registry, bounds, text)")
@@ -28,9 +30,11 @@ LEVEL_TEXT = ("Random function registries and integer bounds, well-typed queries
 LEVEL_NOTE = "Trusted: vlib/ref/typecheck.py + abnf.py; the expected verdict is recomputed from the text, never assumed from the injected fault."
 
 TYPES = [VALUE, LOGICAL, NODES]
+HUGE_SENTINEL = 424242424242424242   # replaced in the rendered text by a digit string of up to 5000 digits
 FNAMES = ["f", "g", "h", "nullable", "truthy", "falsey", "true_1", "n0", "v2", "is_ok", "l", "nn", "fn_9x", "null_",
           "length", "count", "value", "match", "search", "t", "zz"]
-BOUNDS = [None, (-10, 10), (-2**31, 2**31 - 1), (-5, 20), (0, 3), (-(2**53) + 1, 2**53 - 1)]
+BOUNDS = [None, (-10, 10), (-2**31, 2**31 - 1), (-5, 20), (0, 3), (-(2**53) + 1, 2**53 - 1), (1, 10), (-10, -1), (3, 3),
+          (2, 2**53 - 1)]
 
 
 def make_registry(r):
@@ -46,13 +50,13 @@ def make_registry(r):
     return reg
 
 
-def lib_env(reg, bounds, counter):
+def lib_functions(reg, counter, falsy=False):
     from jsonpath_rfc9535 import JSONPathNodeList
     from jsonpath_rfc9535.function_extensions import ExpressionType, FilterFunction
 
     tmap = {VALUE: ExpressionType.VALUE, LOGICAL: ExpressionType.LOGICAL, NODES: ExpressionType.NODES}
     fns = {}
-    for name, sig in reg.items():
+    for i, (name, sig) in enumerate(sorted(reg.items())):
         ret = sig["ret"]
 
         class F(FilterFunction):
@@ -63,9 +67,30 @@ def lib_env(reg, bounds, counter):
                 counter[0] += 1
                 return 1 if _ret == VALUE else True if _ret == LOGICAL else JSONPathNodeList()
 
+        if falsy and i % 2 == 0:
+            # a perfectly legal function object that happens to be falsy (it has a length of zero)
+            F.__len__ = lambda self: 0
         fns[name] = F()
+    return fns
+
+
+def lib_env(reg, bounds, counter, falsy=False, warmup=None):
+    """An environment with the registry `reg`.  With warmup = (registry, query, how) the environment first lives
+    with another registry, compiles a query that uses it, and is then switched to `reg` by rebinding
+    (`env.function_extensions = {...}`) or in place (clear + update)."""
     lo, hi = bounds if bounds else (None, None)
-    return lib.make_env(min_int=lo, max_int=hi, functions=fns, keep_builtins=False)
+    fns = lib_functions(reg, counter, falsy)
+    if not warmup:
+        return lib.make_env(min_int=lo, max_int=hi, functions=fns, keep_builtins=False)
+    reg0, q0, how = warmup
+    env = lib.make_env(min_int=lo, max_int=hi, functions=lib_functions(reg0, counter), keep_builtins=False)
+    lib.compile_(q0, env)
+    if how == "rebind":
+        env.function_extensions = dict(fns)
+    else:
+        env.function_extensions.clear()
+        env.function_extensions.update(fns)
+    return env
 
 
 # ---------------------------------------------------------------- fault injection
@@ -148,7 +173,7 @@ def inject(ast, reg, bounds, r, g):
         return g.call(ret, 1, 1)
 
     if kind == "int":
-        v = r.choice([hi + 1, lo - 1, hi, lo, hi + 1, lo - 1])
+        v = r.choice([hi + 1, lo - 1, hi, lo, hi + 1, lo - 1, 0, 0, HUGE_SENTINEL, -HUGE_SENTINEL, 10**17 + 1, -(10**400)])
         set_at(ast, path, v)
         return ast, ("int-past-bound" if v > hi or v < lo else "int-at-bound"), depth
     if kind == "test":
@@ -227,7 +252,9 @@ def examine(case):
     if exp in ("DISPUTED", "EXCLUDED-R"):
         return None
     counter = [0]
-    env = lib_env(reg, bounds, counter)
+    w = case.get("warmup")
+    env = lib_env(reg, bounds, counter, falsy=bool(case.get("falsy")), warmup=(w["registry"], w["q"], w["how"]) if w else None)
+    counter[0] = 0
     status, got = lib.compile_(text, env)
     if counter[0]:
         return {"bucket": "function-invoked-at-compile", "what": f"compile({text!r}) invoked a registered function",
@@ -277,6 +304,9 @@ def run_shard(spec, shard):
             if inj:
                 ast, fault, depth = inj
         text = Q.Renderer(r, 0.1).query(ast)
+        if str(HUGE_SENTINEL) in text:
+            # integers longer than Python's int<->str conversion limit (4300 digits) are spliced in as text
+            text = text.replace(str(HUGE_SENTINEL), r.choice("123456789") + "7" * r.choice([4299, 4300, 4301, 4999]))
         exp, why = expected_of(text, reg, bounds)
         if exp == "DISPUTED":
             shard.notes["disputed"] += 1
@@ -288,10 +318,25 @@ def run_shard(spec, shard):
         nt = (fault != "none" and depth >= 1) or (fault == "none" and nested_call) or \
              (fault.startswith("int") and depth >= 1)
         case = {"q": text, "registry": reg, "bounds": list(bounds) if bounds else None}
+        if r.random() < 0.3:
+            case["falsy"] = True
+        if r.random() < 0.25:
+            reg0 = make_registry(r)
+            g0 = Q.QGen(r, names=["a", "b"], registry=reg0, filters=True, max_filter_depth=1)
+            callable0 = [n for n in reg0]
+            q0 = None
+            for _ in range(5):
+                e0 = g0.logical(1, 2)
+                if "call" in Q.features(["q", "$", [["child", [["filter", e0]]]]]):
+                    q0 = Q.canonical(["q", "$", [["child", [["filter", e0]]]]])
+                    break
+            if q0:
+                case["warmup"] = {"registry": reg0, "q": q0, "how": r.choice(["rebind", "rebind", "in-place"])}
         pos = "top" if depth == 0 else "nested" if depth == 1 else "deep"
         shard.case(key=(text, sigs(reg), bounds), nontrivial=nt,
                    classes={"fault:" + fault, "expected:" + exp, f"{fault}@{pos}",
-                            "why:" + (why[0] if why else "valid")},
+                            "why:" + (why[0] if why else "valid")} | ({"falsy-function-objects"} if case.get("falsy") else set())
+                   | ({"registry-switched:" + case["warmup"]["how"]} if case.get("warmup") else set()),
                    sample={"q": text, "registry": sigs(reg), "bounds": bounds, "fault": fault, "expected": exp})
         f = examine(case)
         if f:
